@@ -491,6 +491,138 @@ func C20(p *ir.Program, r *report.R) {
 		r.Check("K1", "evm/jumpdest-analysis/index-sites", "-", nIdx >= 2, fmt.Sprintf("%d index sites (confirmed by hand: 2 per function)", nIdx))
 	}
 
+	// ---- an operation that could not be paid leaves no fee behind ---------------------------------------------
+	// The gas function of a value-transferring op records the transfer fee in evm.fees (feeSaved) BEFORE
+	// the interpreter knows whether the op can be paid. On both failure paths (gas function error, UseGas
+	// false) the entry is popped; only the part the remaining gas really covered may be re-appended.
+	// A fee that stays recorded although it was never charged comes back as refunded gas: more gas out
+	// than was put in.
+	{
+		run := p.Func("vm/evm", "Interpreter.Run")
+		isPop := func(in ssa.Instruction) bool {
+			st, ok := in.(*ssa.Store)
+			return ok && ir.Render(st.Addr) == "&in.evm.fees" && ir.Render(st.Val) == "in.evm.fees[:(len(in.evm.fees) - 1)]"
+		}
+		n := 0
+		ir.Instrs(run, func(in ssa.Instruction) {
+			ifi, ok := in.(*ssa.If)
+			if !ok || ir.Render(ifi.Cond) != "in.evm.feeSaved" {
+				return
+			}
+			n++
+			tb := ifi.Block().Succs[0]
+			found, hit, tr := ir.FindPath(ir.PathQuery{From: ir.Point{B: tb, I: -1}, Target: ir.IsReturn, Avoid: isPop})
+			d := "on a failing operation with a saved fee the fee entry is popped before the frame returns"
+			if found {
+				d += fmt.Sprintf(" — but %s is reached without the pop, blocks %v", p.InstrPos(hit), tr)
+			}
+			r.Check("K2", "evm.(*Interpreter).Run/unpaid-fee-popped", p.InstrPos(in), !found, d)
+		})
+		r.Check("K2", "evm.(*Interpreter).Run/unpaid-fee-popped/sites", p.Pos(run.Pos()), n >= 2, fmt.Sprintf("%d failure paths with a saved fee (gas function error, UseGas false)", n))
+		// what is re-appended is what the remaining gas covered beyond the op's own cost
+		for _, st := range p.Stores(p.Field("vm/evm", "EVM.fees")) {
+			if st.Fn != run || st.Kind != "store" {
+				continue
+			}
+			v := ir.Render(st.Val)
+			if strings.HasPrefix(v, "append(") {
+				r.Check("K11", "evm.(*Interpreter).Run/partial-fee-is-covered-part", p.InstrPos(st.Instr), ir.Match("append(in.evm.fees,[(contract.Gas - (cost - in.evm.fees[*]))])", v) && ir.HasFact(ir.FactsAt(st.Instr), "lt((cost - in.evm.fees[*]),contract.Gas)"),
+					"re-appended fee = contract.Gas - (cost - fee), only when that is positive: "+short(v, 120))
+			}
+		}
+		// and no element of the list is rewritten in place
+		for _, st := range p.Stores(p.Field("vm/evm", "EVM.fees")) {
+			if strings.HasSuffix(p.Pos(st.Fn.Pos()), "_test.go") {
+				continue
+			}
+			r.Check("K3", "evm/fees-append-or-truncate-only/"+ir.FuncName(ir.EnclosingTop(st.Fn)), p.InstrPos(st.Instr), st.Kind != "elem", "evm.fees is only appended to, truncated or reset, never edited in place")
+		}
+	}
+
+	// ---- a zero-length memory region is never touched ----------------------------------------------------------
+	// Memory is expanded for [offset, offset+size) only when size > 0 (calcMemSize returns 0 for a
+	// zero-length region, whatever the offset). Memory.Set must therefore be a no-op exactly when SIZE is
+	// zero — not when the value is empty: CALL with retSize = 0 and a huge retOffset hands Set the callee's
+	// (non-empty) return data, and testing len(value) instead reaches the "store empty" panic.
+	{
+		ms := p.Func("vm/evm", "Memory.Set")
+		n := 0
+		ir.Instrs(ms, func(in ssa.Instruction) {
+			touch := false
+			switch x := in.(type) {
+			case *ssa.Panic:
+				touch = true
+			case *ssa.Slice:
+				touch = strings.Contains(ir.Render(x.X), "m.store")
+			}
+			if !touch {
+				return
+			}
+			n++
+			c.Guards("evm.(*Memory).Set", "touch store", in, G{"region-non-empty", "lt(0,size)"})
+		})
+		c.MustFind("K1", "evm.(*Memory).Set/touch store", ms, n, "store access")
+	}
+
+	// ---- what is pushed on the stack belongs to the stack ------------------------------------------------
+	// Operations compute IN PLACE on stack words (x.Add(x, y)). A word that is a live object of the
+	// state (the *big.Int a balance getter returns) or a shared constant (common.Big0) would be changed
+	// by the next arithmetic opcode without a journal entry: a reverted frame leaves the balance changed.
+	// Every pushed value is a pool/new integer, a word taken from the stack, or the receiver-returning
+	// result of a big.Int method on such a value.
+	{
+		eff := ir.DefaultEffects(p)
+		var owned func(v ssa.Value, d int) bool
+		owned = func(v ssa.Value, d int) bool {
+			if d > 8 {
+				return false
+			}
+			switch x := v.(type) {
+			case *ssa.Phi:
+				for _, e := range x.Edges {
+					if !owned(e, d+1) {
+						return false
+					}
+				}
+				return true
+			case *ssa.Extract:
+				return owned(x.Tuple, d+1)
+			case *ssa.Call:
+				n := ir.CalleeName(x)
+				switch {
+				case strings.HasSuffix(n, "evm.intPool.get"), strings.HasSuffix(n, "evm.intPool.getZero"), strings.HasSuffix(n, "big.NewInt"):
+					return true
+				case strings.HasSuffix(n, "evm.Stack.pop"), strings.HasSuffix(n, "evm.Stack.peek"), strings.HasSuffix(n, "evm.Stack.Back"):
+					return true
+				case strings.HasPrefix(n, "big.Int.") && len(x.Call.Args) > 0:
+					return owned(x.Call.Args[0], d+1) // returns its receiver
+				case strings.HasSuffix(n, "math.U256"), strings.HasSuffix(n, "math.S256"):
+					return len(x.Call.Args) > 0 && owned(x.Call.Args[0], d+1)
+				}
+			}
+			return eff.Fresh(v)
+		}
+		nPush := 0
+		var bad []string
+		for _, f := range p.Funcs {
+			if f.Pkg == nil || ir.RelPkg(f.Pkg.Pkg) != "vm/evm" || f.Blocks == nil || strings.HasSuffix(p.Pos(f.Pos()), "_test.go") {
+				continue
+			}
+			if f.Name() == "put" && strings.Contains(ir.FuncName(f), "intPool") {
+				continue // the pool's own free list, not a machine stack
+			}
+			for _, call := range ir.Calls(f, "evm.Stack.push") {
+				nPush++
+				args := operandArgs(call)
+				if len(args) < 2 || !owned(args[1], 0) {
+					bad = append(bad, fmt.Sprintf("%s: %s pushes %s", p.InstrPos(call.(ssa.Instruction)), ir.FuncName(f), short(Arg(call, 1), 80)))
+				}
+			}
+		}
+		r.Check("K4", "evm/stack-owns-its-words", "-", len(bad) == 0, fmt.Sprintf("%d push sites inspected; pushes of values the stack does not own: %v", nPush, bad))
+		r.Check("K4", "evm/stack-owns-its-words/sites", "-", nPush >= 50, fmt.Sprintf("%d push sites (confirmed: 58)", nPush))
+	}
+
 	// ---- determinism / crash-free in vm/evm ---------------------------------------------------
 	{
 		reach := ir.ReachableIn([]*ssa.Function{p.Func("vm/evm", "Interpreter.Run")}, func(f *ssa.Function) bool {
